@@ -134,7 +134,11 @@ class CascadeChecker:
         # Validate signature
         if not key_bits:
             return False
-        return self._verify_sig(key_bits, sig_ptrs)
+        try:
+            return self._verify_sig(key_bits, sig_ptrs)
+        except ValueError:
+            # The announced signature type does not fit the key of the named certificate
+            return False
 
     def __call__(self, name: FormalName, sig_ptrs: SignaturePtrs) -> Coroutine[Any, None, bool]:
         return self.validate(name, sig_ptrs)
